@@ -69,7 +69,7 @@ def scenario(rng, i):
         cur = world.tree_apply(cur, steps[-1])
     steps.append({"op": "create", "fmts": gen.gen_fmts(rng)})          # every file is recorded, the tree is as sealed
     steps.append({"op": "flatten", **({"rel_dest": True} if rng.random() < 0.3 else {})})
-    steps.append({"op": "verifypl", "expect": 0})
+    steps.append({"op": "verifypl", "expect": 0, **({"pl_rel": True} if i % 3 == 1 else {})})     # the packing list named relative to the working directory
     victim = rng.choice(gen.all_files(cur))
     old = gen._node(cur, victim)["f"]
     steps.append({"op": "set", "path": victim, "data": (old + "00") if old else "01"})
